@@ -6,7 +6,7 @@ import atexit, json, os, re, shutil, subprocess, sys, tempfile, time, glob, hash
 os.environ.setdefault("JAVA_TOOL_OPTIONS", "-Xss64m")
 os.environ.setdefault("SAMPLEK", "1")   # the file-format operators recurse over byte sequences
 VERIF = os.path.dirname(os.path.dirname(os.path.abspath(__file__)))      # relocatable: a snapshot of /verif (vp run) uses its own files
-REPO = "/repo"
+REPO = os.environ.get("EZC3D_REPO", "/repo")       # registered commands never set this: it exists so that seeded changes can be tried on a scratch copy
 SPEC = os.path.join(VERIF, "spec")
 NCPU = os.cpu_count() or 8
 
